@@ -233,9 +233,11 @@ Theorem C07_map_projection : forall o d kvss n0 t, o_map_as_struct o = false -> 
                 trace_seq' o (S d) (mvals kvss) (Ok (TUnknown false)) = Ok vt.
 Proof. exact maps_projection. Qed.
 
+(* tuples (of any lengths): position i is the trace of the i-th elements alone, marked nullable iff some tuple is too short to have one *)
 Theorem C07_tuple_projection : forall o d ls n0 t, ls <> [] ->
   trace_seq' o d (map VTuple ls) (Ok (TUnknown n0)) = Ok t ->
-  exists F, t = TTuple n0 F /\ length F = maxlen ls /\ forall i, trace_seq' o (S d) (col i ls) (Ok (TUnknown false)) = Ok (nth_tracer F i).
+  exists F, t = TTuple n0 F /\ length F = maxlen ls /\
+            forall i, exists T, trace_seq' o (S d) (col i ls) (Ok (TUnknown false)) = Ok T /\ nth_tracer F i = mk (tflag i ls) T.
 Proof. exact tuple_projection. Qed.
 
 (* variants: slot i is empty iff no sample has variant i; otherwise it carries the (common) name of the samples with variant i and the
